@@ -9,6 +9,8 @@ import (
 	"go/constant"
 	"go/token"
 	"go/types"
+	"hash/fnv"
+	"strings"
 )
 
 func (x *Exec) tyOf(e ast.Expr) *Ty {
@@ -466,10 +468,17 @@ func (x *Exec) convert(to *Ty, v Val, n ast.Node) Val {
 
 // toInterface boxes a value into an opaque handle. Values that are
 // already handles are passed through; other values get a handle through an
-// injective uninterpreted boxing function.
+// uninterpreted boxing function. For types with a boxKey (plain basic types
+// and slices of them) the box is typed: boxFacts adds, for every such box
+// term of an obligation, that unboxing returns the value, that the handle's
+// dynamic-type tag is the type's, and that the handle is not the nil interface.
 func (x *Exec) toInterface(v Val, to *Ty, n ast.Node) Val {
 	if v.Ty.K == TOpaque {
 		return Val{T: v.T, Ty: to}
+	}
+	if key := boxKey(v.Ty); key != "" {
+		bn, _ := x.boxFuncs(key, v.T.Sort)
+		return Val{T: mk(bn, SInt, v.T), Ty: to}
 	}
 	if v.T.Sort == SInt {
 		return Val{T: v.T, Ty: to}
@@ -477,4 +486,97 @@ func (x *Exec) toInterface(v Val, to *Ty, n ast.Node) Val {
 	name := "box_" + sortTag(v.T.Sort)
 	x.sym.Func(name, []Sort{v.T.Sort}, SInt)
 	return Val{T: mk(name, SInt, v.T), Ty: to}
+}
+
+// boxKey is the canonical spelling of a Go type whose values are boxed with a
+// dynamic-type tag ("" if the type is outside that subset: named types,
+// arrays, structs, pointers).
+func boxKey(ty *Ty) string {
+	if ty == nil {
+		return ""
+	}
+	if ty.Go != nil {
+		switch ty.Go.(type) {
+		case *types.Basic, *types.Slice:
+		default:
+			return ""
+		}
+	}
+	switch ty.K {
+	case TFloat:
+		return "float64"
+	case TSlice:
+		if e := boxKey(ty.Elem); e != "" {
+			return "[]" + e
+		}
+	case TInt:
+		if b, ok := ty.Go.(*types.Basic); ok && ty.Go != nil {
+			return b.Name()
+		}
+		if ty.Go == nil && !ty.Unsigned && ty.Bits == 0 {
+			return "int"
+		}
+	}
+	return ""
+}
+
+type boxKind struct {
+	key   string
+	unbox string
+	sort  Sort
+	tag   int64
+}
+
+// boxFuncs declares (once) the box / unbox functions of a boxKey.
+func (x *Exec) boxFuncs(key string, sort Sort) (box, unbox string) {
+	id := strings.NewReplacer("[]", "sl_", "*", "p_", ".", "_").Replace(key)
+	box, unbox = "box_"+id, "unbox_"+id
+	if x.boxKinds == nil {
+		x.boxKinds = map[string]boxKind{}
+	}
+	if _, ok := x.boxKinds[box]; !ok {
+		h := fnv.New32a()
+		h.Write([]byte(key))
+		x.boxKinds[box] = boxKind{key: key, unbox: unbox, sort: sort, tag: int64(h.Sum32()%1000000) + 1}
+		x.sym.Func(box, []Sort{sort}, SInt)
+		x.sym.Func(unbox, []Sort{SInt}, sort)
+		x.sym.Func("dyntag", []Sort{SInt}, SInt)
+	}
+	return
+}
+
+// dynTypeIs: the handle h holds a value of the boxKey's type; unboxed: that value.
+func (x *Exec) dynTypeIs(h *Term, key string, sort Sort) *Term {
+	bn, _ := x.boxFuncs(key, sort)
+	return Eq(mk("dyntag", SInt, h), IntLit(x.boxKinds[bn].tag))
+}
+
+func (x *Exec) unboxed(h *Term, key string, sort Sort) *Term {
+	_, un := x.boxFuncs(key, sort)
+	return mk(un, sort, h)
+}
+
+// boxFacts: ground instances of the boxing axioms for the box terms of ts.
+func (x *Exec) boxFacts(ts []*Term) []*Term {
+	if len(x.boxKinds) == 0 {
+		return nil
+	}
+	seen := map[string]bool{}
+	var out []*Term
+	for _, t := range ts {
+		t.walk(func(s *Term) {
+			bk, ok := x.boxKinds[s.Op]
+			if !ok || len(s.Args) != 1 {
+				return
+			}
+			k := s.String()
+			if seen[k] {
+				return
+			}
+			seen[k] = true
+			out = append(out, Eq(mk(bk.unbox, bk.sort, s), s.Args[0]),
+				Eq(mk("dyntag", SInt, s), IntLit(bk.tag)), Not(Eq(s, IntLit(0))))
+		})
+	}
+	return out
 }
